@@ -13,7 +13,7 @@ WT = os.path.join(W, "wt")
 
 
 def sh(cmd, **kw):
-    return subprocess.run(cmd, capture_output=True, text=True, **kw)
+    return subprocess.run(cmd, capture_output=True, text=True, errors="replace", **kw)
 
 
 def demo(sid):
